@@ -275,6 +275,15 @@ fn ffi_fixed_life_cycle() {
             let s = riti_context_backspace_event(ctx, false);
             kept.push((s, read_out(s)));
             riti_context_candidate_committed(ctx, 0);
+            // t = ক, w = hasanta, z = the vowel sign without an independent form (U+09C4), d = ে after it: every string the C side
+            // hands out has the length of the Rust value (no interior NUL, nothing cut)
+            for k in [0xA0A9u16, 0xA0AC, 0xA0AF, 0xA099] {
+                let s = riti_get_suggestion_for_key(ctx, k, 0, 0);
+                let strings = read_out(s);
+                for (p, expect) in &strings { assert_eq!(CStr::from_ptr(*p).to_bytes().len(), expect.len()); assert!(!expect.contains('\0')); }
+                kept.push((s, strings));
+            }
+            riti_context_finish_input_session(ctx);
             riti_context_free(ctx);
             riti_config_free(cfg);
             for (s, strings) in kept {
